@@ -271,6 +271,13 @@ func (vc *VC) frameObligations(f0 *frame, exit *State, c *Contract) {
 		if h0 == h1 {
 			continue
 		}
+		if strings.HasPrefix(h, "G_") {
+			// a ghost variable lives in one cell (at the nil reference)
+			if len(allowed[h]) == 0 {
+				vc.oblige(exit, "frame."+h, "(= (select "+h1+" nil) (select "+h0+" nil))", "frame: ghost variable "+h+" unchanged (not in the modifies clause)", f0.fn.Pos(), false)
+			}
+			continue
+		}
 		conds := append([]string{"(< (rid r) alloc0)", "(not (= r nil))"}, excl...)
 		goal := "(forall ((r Ref)) (=> " + and(conds...) + " (= (select " + h1 + " r) (select " + h0 + " r))))"
 		vc.oblige(exit, "frame."+h, goal, "frame: "+h+" unchanged outside the modifies clause", f0.fn.Pos(), false)
